@@ -1173,7 +1173,7 @@ def gen_corner_recipe(r):
     quantisation, unsupported operators and attribute values, dynamic weights, third-party custom operators."""
     dt = r.choice(["int8", "int8", "uint8", "int16", "int32", "float32"])
     q = (lambda: None) if dt in ("float32",) or r.random() < 0.12 else (lambda: list(_rand_q(r, dt if dt != "int32" else "int16")))
-    kind = r.choice(["ew", "ew", "unary", "unary", "conv", "conv", "dw", "fc", "pool", "shape", "mean", "softmax", "resize", "unsupported", "chain", "lstm"])
+    kind = r.choice(["ew", "ew", "unary", "unary", "conv", "conv", "dw", "fc", "pool", "shape", "mean", "mean", "softmax", "resize", "unsupported", "chain", "lstm"])
     inputs, layers = [], []
 
     def inp(shape, dtype=dt, qq="auto"):
@@ -1324,6 +1324,8 @@ def gen_corner_recipe(r):
         shp = _corner_shape(r, r.choice([2, 3, 4, 4]), big=True)
         x0 = inp(shp)
         axes = sorted(set(r.randrange(len(shp)) for _ in range(r.choice([1, 1, 2, 3]))))
+        if r.random() < 0.25:
+            axes = [len(shp) - 1]  # the depth axis alone (the reduction the NPU has no pooling direction for)
         layers.append(dict(op="MEAN", axes=axes, keepdims=r.random() < 0.6, q=q(), **{"in": [x0]}))
     elif kind == "softmax":
         shp = _corner_shape(r, r.choice([1, 2, 3, 4]), big=True)
